@@ -505,7 +505,9 @@ def gen_idx(rng, bs, good=True):
     if r < 0.8:
         return ["mask", [rng.random() < 0.6 for _ in range(n)]]
     if r < 0.9 and len(bs) >= 2:
-        return ["tup", [gen_idx(rng, bs[:1]), gen_idx(rng, bs[1:2])]]
+        def flat(x):        # an index tuple holds plain items only (no tuple inside a tuple)
+            return x if x[0] != "tup" else ["sl", None, None, None]
+        return ["tup", [flat(gen_idx(rng, bs[:1])), flat(gen_idx(rng, bs[1:2]))]]
     return rng.choice([["ell"], ["tup", [["ell"], ["sl", None, None, None]]], ["tup", [["non"], ["sl", None, None, None]]]])
 
 
@@ -834,9 +836,13 @@ def signature(step, problem):
         sig["pattern"] = "lazy-names-undefined"
     elif in_lazy and cls == "write" and nested_key and what in ("entry-shape", "entry-device", "nested-batch", "nested-device"):
         sig["pattern"] = "lazy-nested-key-validated-at-root"
-    elif cls == "rename" and o != "flatten_keys" and nested_key and step["out"] == "ok" and \
+    elif cls == "rename" and o != "flatten_keys" and nested_key and \
             what in ("entry-shape", "entry-device", "nested-batch", "nested-device"):
         sig["pattern"] = "rename-into-nested-unvalidated"
+    elif o == "update" and op.get("ubs") and what == "nested-batch":
+        sig["pattern"] = "update-batch-size-nested-reset"
+    elif o == "auto_batch_size_" and step["out"] == "raise" and what == "nested-batch" and not hollow:
+        sig["pattern"] = "auto-batch-size-partial-on-raise"
     elif what == "nested-batch" and hollow and cls in ("bs", "write") and not in_lazy:
         sig["pattern"] = "hollow-nested-exempt-from-batch-check" if step["out"] == "ok" else "hollow-nested-grown-before-failed-check"
     elif cls == "index" and what == "names-count" and victim_pre is None and victim_post is not None and victim_post["k"] == "td":
@@ -979,3 +985,266 @@ def canon_tree(s):
     n = canon_names(s["names"])
     return ["node", s["k"], list(s["bs"]), s["dev"] or "none", "none" if n is None else [x if x is not None else "none" for x in n],
             [[key, canon_tree(v)] for key, v in (s.get("ents") or [])]]
+
+
+def result_signature(step, problem):
+    """pattern of a problem found in the RESULT of an indexed read"""
+    sig = {"call": "__getitem__", "what": problem["what"], "outcome": "ok", "pattern": "indexed-result"}
+    victim = sub_snapshot(step.get("result") or {"k": "none"}, problem["at"]) if step.get("result") else None
+    if victim is not None and victim.get("k") == "nts" and victim.get("names") and str(victim["names"][0]).startswith("<names raised"):
+        sig["what"] = "names-undefined"
+        sig["pattern"] = "empty-nontensorstack-names-raise"
+    return sig
+
+
+# ====================================================================================================== a run
+CORPUS = os.path.join(os.path.dirname(os.path.dirname(os.path.abspath(__file__))), "corpus", PID)
+
+
+def replay_case(case):
+    """re-execute a recorded case (fixture + ops) on the real objects; returns the list of step records"""
+    root = build(case["fixture"])
+    S = snap(root)
+    steps = []
+    for op in case["ops"]:
+        res = run_op(root, op)
+        step = {"op": op, "out": res[0], "exc": res[1] if res[0] != "ok" else None, "pre": S}
+        if res[0] == "skip":
+            steps.append(step)
+            continue
+        seen = {}
+        S2 = snap(root, seen)
+        step["aliased"] = any(c > 1 for c in seen.values())
+        step["post"] = S2
+        step["problems"] = coherent(S2)
+        if op["op"] == "getitem" and res[0] == "ok":
+            rs = snap(res[1])
+            step["result_problems"] = coherent(rs)
+        steps.append(step)
+        S = S2
+    return steps
+
+
+def case_of(rec, upto):
+    """the replayable case of a history up to (and including) step index `upto`: only the calls that were executed"""
+    ops = [st["op"] for st in rec["steps"][:upto + 1] if st["out"] in ("ok", "raise")]
+    return {"fixture": rec["fixture"], "kind": rec["kind"], "ops": ops}
+
+
+def shrink(case, pattern, what, budget=40):
+    """greedy removal of calls while the last call still fails the oracle with the same pattern"""
+    def fails(c):
+        try:
+            steps = replay_case(c)
+        except Exception:  # noqa: BLE001
+            return False
+        if not steps or steps[-1]["out"] == "skip":
+            return False
+        last = steps[-1]
+        for p in last.get("problems") or []:
+            sg = signature(last, p)
+            if sg["pattern"] == pattern and sg["what"] == what:
+                return True
+        return False
+    ops = list(case["ops"])
+    i = 0
+    while i < len(ops) - 1 and budget > 0:
+        cand = dict(case, ops=ops[:i] + ops[i + 1:])
+        budget -= 1
+        if fails(cand):
+            ops = cand["ops"]
+        else:
+            i += 1
+    return dict(case, ops=ops)
+
+
+def work(args):
+    """one history in a worker process: oracle results and the lines for the model"""
+    seed, length, wide = args
+    import warnings
+    warnings.filterwarnings("ignore")
+    torch.set_num_threads(1)
+    rec = run_history(seed, length, wide)
+    out = {"seed": seed, "kind": rec["kind"], "built": rec["built"], "fails": [], "lines": [], "hist": {}, "keys": [], "sample": None,
+           "init_problems": rec.get("init_problems") or []}
+    if not rec["built"]:
+        out["hist"]["fixture-not-built"] = 1
+        return out
+    h = out["hist"]
+
+    def cnt(k):
+        h[k] = h.get(k, 0) + 1
+    cnt("root:" + rec["kind"])
+    import hashlib
+    for i, st in enumerate(rec["steps"]):
+        o = st["op"]["op"]
+        cnt("op:" + o + ":" + st["out"])
+        if st["out"] not in ("ok", "raise"):
+            continue
+        if st["op"].get("path"):
+            cnt("handle:nested")
+        else:
+            cnt("handle:root")
+        key = hashlib.sha1(json.dumps([st["pre"], st["op"]], sort_keys=True).encode()).hexdigest()[:16]
+        out["keys"].append(key)
+        if out["sample"] is None and i == 3:
+            out["sample"] = {"fixture": rec["fixture"], "op": st["op"], "outcome": st["out"]}
+        probs = list(st.get("problems") or [])
+        for p in probs:
+            sg = signature(st, p)
+            out["fails"].append({"label": "coherence:" + sg["what"], "case": case_of(rec, i), "detail": {"problem": p, "exception": st.get("exc")},
+                                 "sig": sg})
+        for p in st.get("result_problems") or []:
+            out["fails"].append({"label": "indexed-result:" + p["what"], "case": case_of(rec, i), "detail": {"problem": p},
+                                 "sig": result_signature(st, p)})
+        # correspondence line
+        if st.get("aliased"):
+            cnt("model:skipped-aliased")
+            continue
+        if not modelable(st["pre"]) or not modelable(st["post"]):
+            cnt("model:outside-plain-trees")
+            continue
+        mo = op_sx(st["op"])
+        if mo is None:
+            cnt("model:op-not-modelled")
+            continue
+        out["lines"].append({"line": sx([Sym("step"), tree_sx(st["pre"]), mo]), "out": st["out"], "post": canon_tree(st["post"]),
+                             "coherent": not probs, "in_scope": True, "case": case_of(rec, i), "op": o})
+    return out
+
+
+def run_pool(jobs, procs):
+    if procs <= 1:
+        return [work(j) for j in jobs]
+    import multiprocessing as mp
+    ctx = mp.get_context("fork")
+    with ctx.Pool(procs) as pool:
+        return pool.map(work, jobs, chunksize=max(1, len(jobs) // (procs * 8)))
+
+
+def main(R):
+    import warnings
+    warnings.filterwarnings("ignore")
+    torch.set_num_threads(1)
+    R.rule = ("histories of public mutating calls (set / set_ / set_at_ / key and index assignment / update / update_ / update_at_ / del / pop / "
+              "popitem / rename_key_ / batch_size and names assignment / refine_names / rename_ / auto_batch_size_ / in-place flatten_keys, "
+              "unflatten_keys, select, exclude / create_nested / setdefault / clear / set_non_tensor / lazy append, insert / indexed reads) "
+              "issued on the root or through a handle to a nested node, on generated fixtures (rank 0..3, dims in {0,1,2,3}, nested to depth 3, "
+              "named / unnamed, device None / cpu / meta, NonTensorData entries, lazy stacks and tensorclasses as roots and as entries); ~28% "
+              "ill-shaped / ill-placed / ill-named arguments; after EVERY call (also raising ones) the real object is walked recursively and "
+              "coherent(snapshot) is evaluated.  distinct = sha1(pre-state snapshot, call); non-trivial = the call was executed (ok or raised)")
+    R.assumptions = ["tensor element values are not part of the property (all leaves are zeros)",
+                     "arguments handed to the calls are built through the public constructors only",
+                     "the model covers plain TensorDict trees (tensor leaves, nested TensorDicts, NonTensorData entries); lazy stacks, "
+                     "tensorclasses, index writes and update_batch_size are covered by the oracle only"]
+    R.trusted = ["harness/c01.py: snapshot walk and the 4-clause oracle `coherent` (cross-checked against Coq's coherentb on every modelled state)"]
+    R.step_prove()
+    ok = R.step_driver()
+    procs = min(16, os.cpu_count() or 1) if not R.quick else min(8, os.cpu_count() or 1)
+    n_plain, n_wide, length = (1500, 1200, 30) if R.quick else (14000, 10000, 60)
+    jobs = [(R.rng.getrandbits(48), length, False) for _ in range(n_plain)] + [(R.rng.getrandbits(48), length, True) for _ in range(n_wide)]
+    # ---- corpus first
+    corpus_fail = []
+    if os.path.isdir(CORPUS):
+        for fn in sorted(os.listdir(CORPUS)):
+            if not fn.endswith(".json"):
+                continue
+            case = json.load(open(os.path.join(CORPUS, fn)))
+            try:
+                steps = replay_case(case)
+            except Exception as e:  # noqa: BLE001
+                R.broken.append(f"corpus case {fn} cannot be rebuilt: {type(e).__name__}")
+                continue
+            R.count("corpus:cases")
+            for i, st in enumerate(steps):
+                if st["out"] not in ("ok", "raise"):
+                    continue
+                R.case("corpus:" + fn + ":" + str(i), nontrivial=True)
+                for p in st.get("problems") or []:
+                    sg = signature(st, p)
+                    R.oracle_fail("coherence:" + sg["what"], dict(case, ops=case["ops"][:i + 1]), {"problem": p, "exception": st.get("exc"), "corpus": fn}, sg)
+    results = run_pool(jobs, procs)
+    lines, metas = [], []
+    new_patterns = {}
+    for res in results:
+        for k, v in res["hist"].items():
+            R.count(k, v)
+        if res["init_problems"]:
+            R.oracle_fail("coherence:constructor", {"fixture": None, "seed": res["seed"], "ops": []}, {"problems": res["init_problems"][:3]},
+                          {"call": "constructor", "pattern": "none"})
+        for key in res["keys"]:
+            R.case(key, nontrivial=True, sample=None)
+        if res["sample"] is not None and len(R.samples) < 6:
+            R.samples.append(res["sample"])
+        for f in res["fails"]:
+            sg = f["sig"]
+            case = f["case"]
+            if sg["pattern"] == "none" and len(new_patterns) < 6:
+                k = (sg["call"], sg["what"], sg["outcome"])
+                if k not in new_patterns:
+                    new_patterns[k] = 1
+                    case = shrink(case, sg["pattern"], sg["what"])
+            R.oracle_fail(f["label"], case, f["detail"], sg)
+        for ln in res["lines"]:
+            lines.append(ln["line"])
+            metas.append(ln)
+    if ok and lines:
+        mres = R.model(lines, shards=procs)
+        inside = 0
+        for ln, r in zip(metas, mres):
+            R.traces += 1
+            if not isinstance(r, list) or (r and r[0] == "decode-error"):
+                R.mismatch("decode", ln["case"], "line accepted by the code", r)
+                continue
+            mt, mo, coh_pre, coh_post, insc, clean = r
+            if mo == "unmodelled":
+                R.count("model:unmodelled-branch")
+                continue
+            R.count("model:compared")
+            if insc == "t" and clean == "t" and coh_pre == "t":
+                inside += 1
+            if mo != ln["out"] or mt != ln["post"]:
+                R.mismatch("step:" + ln["op"], ln["case"], {"outcome": ln["out"], "post": ln["post"]}, {"outcome": mo, "post": mt})
+            elif (coh_post == "t") != ln["coherent"]:
+                R.mismatch("coherentb-twin", ln["case"], {"oracle_coherent": ln["coherent"]}, {"coherentb": coh_post})
+            elif coh_pre == "t" and insc == "t" and clean == "t" and coh_post != "t":
+                # the theorem C01_step_partial evaluated on a concrete case: cannot happen while the proof compiles
+                R.mismatch("theorem-instance", ln["case"], "model state incoherent inside the theorem's domain", mt)
+        R.extra["modelled_steps_inside_theorem_domain"] = inside
+    R.extra["histories"] = len(jobs)
+    R.extra["steps_per_history"] = length
+
+
+def replay(body):
+    import warnings
+    warnings.filterwarnings("ignore")
+    case = body["case"]
+    print("fixture:", json.dumps(case.get("fixture")))
+    if case.get("fixture") is None:
+        print("(no fixture recorded)")
+        return 0
+    steps = replay_case(case)
+    from .core import build_driver, run_model
+    okd, _ = build_driver(PID)
+    for i, st in enumerate(steps):
+        print(f"--- call {i}: {json.dumps(st['op'])}")
+        print("    implementation:", st["out"], st.get("exc") or "")
+        if st["out"] == "skip":
+            continue
+        for p in st.get("problems") or []:
+            print("    ORACLE: incoherent ->", json.dumps(p), " signature:", json.dumps(signature(st, p)))
+        if not st.get("problems"):
+            print("    oracle: coherent")
+        if okd and modelable(st["pre"]) and modelable(st["post"]):
+            mo = op_sx(st["op"])
+            if mo is not None:
+                r = run_model(PID, [sx([Sym("step"), tree_sx(st["pre"]), mo])])[0]
+                if isinstance(r, list) and len(r) == 6:
+                    agree = r[1] == "unmodelled" or (r[1] == st["out"] and r[0] == canon_tree(st["post"]))
+                    print(f"    model: outcome {r[1]}, coherentb(post) {r[3]}, in_scope {r[4]}, clean {r[5]}, agrees with implementation: {agree}")
+                    if not agree:
+                        print("      model post:", json.dumps(r[0]))
+                        print("      real  post:", json.dumps(canon_tree(st["post"])))
+    print("final state:", json.dumps(canon_tree(steps[-1]["post"])) if steps and steps[-1].get("post") and modelable(steps[-1]["post"]) else "(see snapshot)")
+    print(json.dumps(body.get("detail"), default=str))
+    return 0
